@@ -715,3 +715,317 @@ func readerErrorsSurface(ctx *core.Ctx, r *core.Report) {
 	}
 	r.Floor("reader-errors-surface", n, 2)
 }
+
+// borrowFrom runs another property's rule set into a scratch report and copies the named rules.
+func borrowFrom(ctx *core.Ctx, r *core.Report, prop string, rule Rule, names ...string) {
+	sub := core.NewReport(prop, r.Tier, r.Root, r.Seed)
+	rule(ctx, sub)
+	r.Borrow(sub, names...)
+}
+
+// c07TargetBeforeUse: the navigation target of each request findSlice builds is
+// part of the literal — in force when the request is handed to selekt /
+// selectListItem. A Target assigned later under a condition (not on the last step)
+// leaves the step onto the target itself unmarked: the query's own filters then
+// apply to it (fc.max-node-count counts it, content=config vetoes a config false target).
+func c07TargetBeforeUse(ctx *core.Ctx, r *core.Report) {
+	fs := ctx.Method("node", "Selection", "findSlice")
+	if fs == nil {
+		r.Fatalf("anchor node.Selection.findSlice not found")
+		return
+	}
+	n := 0
+	core.Instrs(fs, func(_ *ssa.BasicBlock, in ssa.Instruction) {
+		al, ok := in.(*ssa.Alloc)
+		if !ok || al.Comment != "complit" {
+			return
+		}
+		named := core.NamedOf(al.Type())
+		if named == nil || (named.Obj().Name() != "ChildRequest" && named.Obj().Name() != "ListRequest") {
+			return
+		}
+		n++
+		// every store into the literal's Target dominates every call that takes the literal
+		var stores []*ssa.Store
+		var uses []ssa.Instruction
+		var visit func(v ssa.Value, d int)
+		visit = func(v ssa.Value, d int) {
+			if v.Referrers() == nil || d > 3 {
+				return
+			}
+			for _, ref := range *v.Referrers() {
+				switch x := ref.(type) {
+				case *ssa.FieldAddr:
+					st := core.Deref(x.X.Type()).Underlying().(*types.Struct)
+					if st.Field(x.Field).Name() == "Target" {
+						for _, r2 := range *x.Referrers() {
+							if s, isS := r2.(*ssa.Store); isS && s.Addr == ssa.Value(x) {
+								stores = append(stores, s)
+							}
+						}
+					} else {
+						visit(x, d+1)
+					}
+				case ssa.CallInstruction:
+					uses = append(uses, x.(ssa.Instruction))
+				}
+			}
+		}
+		visit(al, 0)
+		ok2 := len(stores) > 0 && len(uses) > 0
+		for _, u := range uses {
+			dom := false
+			for _, s := range stores {
+				if instrDominates(s, u) {
+					dom = true
+				}
+			}
+			if !dom {
+				ok2 = false
+			}
+		}
+		r.Ob("navigation-marks-requests", fmt.Sprintf("node.Selection.findSlice/%s/target-in-force-at-use", named.Obj().Name()), ctx.Pos(al.Pos()), ok2,
+			"the request is handed on without its navigation target having been set on every path (it is assigned afterwards, or only for some steps): the step onto the target counts as a read and the query's own filters are applied to it")
+	})
+	r.Floor("navigation-marks-requests(target at use)", n, 2)
+}
+
+// c07EditBaseIsRequestBase: every request the editor builds for the read side of a
+// walk carries the base path of the whole edit (e.basePath): the read filters
+// measure depth, field paths and list selectors from it. A request based on the
+// current selection's own path makes every list look like the one fc.range names.
+func c07EditBaseIsRequestBase(ctx *core.Ctx, r *core.Report) {
+	n := 0
+	for _, name := range []string{"leaf", "node", "list"} {
+		f := ctx.Method("node", "editor", name)
+		if f == nil {
+			r.Fatalf("anchor node.editor.%s not found", name)
+			continue
+		}
+		core.Instrs(f, func(_ *ssa.BasicBlock, in ssa.Instruction) {
+			st, ok := in.(*ssa.Store)
+			if !ok {
+				return
+			}
+			fa, ok := st.Addr.(*ssa.FieldAddr)
+			if !ok {
+				return
+			}
+			sts, ok := core.Deref(fa.X.Type()).Underlying().(*types.Struct)
+			if !ok || sts.Field(fa.Field).Name() != "Base" {
+				return
+			}
+			n++
+			chain := paramFieldChain(st.Val)
+			r.Ob("edit-base-is-request-base", fmt.Sprintf("node.editor.%s/Base#%d", name, n), ctx.Pos(st.Pos()), strings.HasSuffix(chain, ".basePath"),
+				"a request built by the editor takes "+chain+" as its base instead of the base path of the edit: fc.range (and depth, fields) then measure from the current list, so every list of the tree matches the selector and is windowed")
+		})
+	}
+	r.Floor("edit-base-is-request-base", n, 3)
+}
+
+// c07AlternativesFlushed: in the path-expression parser every `;` hands the
+// alternative built so far to the expression before the next one is started (as
+// `)` and the end of input do): without it only the first and the last alternative
+// of a group survive (fields=a;b;c selects a and c).
+func c07AlternativesFlushed(ctx *core.Ctx, r *core.Report) {
+	f := ctx.Method("node", "PathMatchExpression", "parsex")
+	ap := ctx.Method("node", "PathMatchExpression", "appendPaths")
+	if f == nil || ap == nil {
+		r.Fatalf("anchors node.PathMatchExpression.parsex / appendPaths not found")
+		return
+	}
+	caseOf := map[string]*ssa.BasicBlock{}
+	core.Instrs(f, func(b *ssa.BasicBlock, in ssa.Instruction) {
+		if ifi, ok := in.(*ssa.If); ok {
+			if bo, ok := ifi.Cond.(*ssa.BinOp); ok && bo.Op == token.EQL {
+				if s, isC := core.ConstString(bo.Y); isC {
+					caseOf[s] = b.Succs[0]
+				}
+			}
+		}
+	})
+	for _, tok := range []string{";", ")"} {
+		cb, has := caseOf[tok]
+		ok := false
+		if has {
+			for _, c := range callsStatic(f, ap, false) {
+				if c.Block() == cb || cb.Dominates(c.Block()) {
+					ok = true
+				}
+			}
+		}
+		r.Ob("alternatives-flushed", "node.PathMatchExpression.parsex/case:"+tok, ctx.Pos(f.Pos()), ok,
+			"the path-expression parser does not hand the alternative built so far to the expression when it meets `"+tok+"`: of three or more alternatives only the first and the last survive, so fields=a;b;c selects a and c")
+	}
+}
+
+// c08KeyOrderFollowsKeyStatement: List.KeyMeta() lists the key leaves in the order
+// of the key statement: compiler.list fills keyMeta[i] from key[i]. Any other order
+// (declaration order of the leaves) swaps the values of a compound key in a path.
+func c08KeyOrderFollowsKeyStatement(ctx *core.Ctx, r *core.Report) {
+	f := ctx.Method("meta", "compiler", "list")
+	if f == nil {
+		r.Fatalf("anchor meta.compiler.list not found")
+		return
+	}
+	ok := false
+	core.Instrs(f, func(_ *ssa.BasicBlock, in ssa.Instruction) {
+		st, isSt := in.(*ssa.Store)
+		if !isSt {
+			return
+		}
+		ia, isIa := st.Addr.(*ssa.IndexAddr)
+		if !isIa || !strings.HasSuffix(paramFieldChain(ia.X), ".keyMeta") {
+			return
+		}
+		// the index is the induction variable of a loop bounded by len(y.key)
+		ph, isPhi := ia.Index.(*ssa.Phi)
+		if !isPhi {
+			if bo, isBo := ia.Index.(*ssa.BinOp); isBo {
+				ph, isPhi = bo.X.(*ssa.Phi)
+			}
+		}
+		if !isPhi {
+			return
+		}
+		for _, ref := range *ph.Referrers() {
+			if bo, isBo := ref.(*ssa.BinOp); isBo && bo.Op == token.LSS {
+				if lc, isCall := bo.Y.(*ssa.Call); isCall && len(lc.Common().Args) == 1 && strings.HasSuffix(paramFieldChain(lc.Common().Args[0]), ".key") {
+					ok = true
+				}
+			}
+		}
+		// `for i, keyIdent := range y.key` increments i in a BinOp ADD whose result feeds the phi
+		for _, e := range ph.Edges {
+			if bo, isBo := e.(*ssa.BinOp); isBo && bo.Op == token.ADD {
+				for _, ref := range *bo.Referrers() {
+					if cmp, isCmp := ref.(*ssa.BinOp); isCmp && cmp.Op == token.LSS {
+						if lc, isCall := cmp.Y.(*ssa.Call); isCall && len(lc.Common().Args) == 1 && strings.HasSuffix(paramFieldChain(lc.Common().Args[0]), ".key") {
+							ok = true
+						}
+					}
+				}
+			}
+		}
+	})
+	r.Ob("key-order-follows-key-statement", "meta.compiler.list/keyMeta", ctx.Pos(f.Pos()), ok,
+		"KeyMeta is not filled position by position from the key statement: with the leaves in declaration order a compound key `key \"dst src\"` takes its path values in the wrong order — route=b,a selects another entry, or fails to convert")
+}
+
+// c08WhereNeedsBase: Where applies its expression only to a request that has a
+// base (a read that started at the filtered list): the navigation request of Find
+// carries a Target and no Base, and must pass — the call of XPredicate is out of
+// reach on the side where r.Base is nil.
+func c08WhereNeedsBase(ctx *core.Ctx, r *core.Report) {
+	f := ctx.Method("node", "Where", "CheckListPostConstraints")
+	xp := ctx.Method("node", "Selection", "XPredicate")
+	if f == nil || xp == nil {
+		r.Fatalf("anchors node.Where.CheckListPostConstraints / Selection.XPredicate not found")
+		return
+	}
+	for _, c := range callsStatic(f, xp, false) {
+		tested, reach := false, false
+		core.Instrs(f, func(b *ssa.BasicBlock, in ssa.Instruction) {
+			ifi, ok := in.(*ssa.If)
+			if !ok {
+				return
+			}
+			bo, ok := ifi.Cond.(*ssa.BinOp)
+			if !ok || !core.IsNilConst(bo.Y) || paramFieldChain(bo.X) != "r.Base" {
+				return
+			}
+			tested = true
+			nilSide := b.Succs[0]
+			if bo.Op == token.NEQ {
+				nilSide = b.Succs[1]
+			}
+			// the phi `target` may merge: follow only while the merged value says "not target"
+			if reachesWithBaseNil(nilSide, c.Block(), b) {
+				reach = true
+			}
+		})
+		r.Ob("where-scope", "node.Where.CheckListPostConstraints/needs-base", ctx.Pos(c.Pos()), tested && !reach,
+			"the where expression can be evaluated for a request that has no base — the navigation request of Find: an entry on the way to the target that fails the predicate makes Find return nothing")
+	}
+}
+
+// reachesWithBaseNil: from block `from` (reached when r.Base is nil) can control reach
+// `to` on a path consistent with that fact? Conservative for the shape
+// `target := base != nil && …; if target && … { … }`: the phi takes the constant false
+// from the nil side, so an If on that phi goes to its false successor.
+func reachesWithBaseNil(from, to, test *ssa.BasicBlock) bool {
+	seen := map[*ssa.BasicBlock]bool{}
+	var walk func(b, pred *ssa.BasicBlock) bool
+	walk = func(b, pred *ssa.BasicBlock) bool {
+		if b == to {
+			return true
+		}
+		if seen[b] {
+			return false
+		}
+		seen[b] = true
+		if len(b.Instrs) > 0 {
+			if ifi, ok := b.Instrs[len(b.Instrs)-1].(*ssa.If); ok {
+				if ph, isPhi := ifi.Cond.(*ssa.Phi); isPhi && ph.Block() == b {
+					for i, p := range b.Preds {
+						if p == pred {
+							if k, isC := ph.Edges[i].(*ssa.Const); isC && k.Value != nil {
+								if k.Value.String() == "false" {
+									return walk(b.Succs[1], b)
+								}
+								return walk(b.Succs[0], b)
+							}
+						}
+					}
+				}
+			}
+		}
+		for _, s := range b.Succs {
+			if walk(s, b) {
+				return true
+			}
+		}
+		return false
+	}
+	return walk(from, test)
+}
+
+// c04ChooseThroughQualifiedLookup: the JSON reader finds a member under its plain
+// or its module-qualified name through one helper (fqkGet); the Choose callback
+// probes the members of each case with it as well — a direct map lookup by plain
+// name misses every member that carries a module prefix and the whole case is
+// dropped from the export.
+func c04ChooseThroughQualifiedLookup(ctx *core.Ctx, r *core.Report) {
+	jr := ctx.Fn("nodeutil", "JsonContainerReader")
+	get := ctx.Fn("nodeutil", "fqkGet")
+	if jr == nil || get == nil || len(jr.Params) == 0 {
+		r.Fatalf("anchors nodeutil.JsonContainerReader / fqkGet not found")
+		return
+	}
+	n := 0
+	for _, clo := range jr.AnonFuncs {
+		core.Instrs(clo, func(_ *ssa.BasicBlock, in ssa.Instruction) {
+			lk, ok := in.(*ssa.Lookup)
+			if !ok {
+				return
+			}
+			// a lookup in the captured document map
+			src := core.Strip(lk.X)
+			if u, isU := src.(*ssa.UnOp); isU {
+				src = u.X
+			}
+			if fv, isFv := src.(*ssa.FreeVar); isFv && fv.Name() == jr.Params[0].Name() {
+				n++
+				r.Ob("choose-through-qualified-lookup", core.FnName(clo)+"/direct-lookup", ctx.Pos(lk.Pos()), false,
+					"a callback of the JSON reader looks a member up in the document by its plain name instead of through fqkGet: members written with their module prefix (RFC 7951) are not found — for Choose the whole case is silently dropped")
+			}
+		})
+	}
+	uses := 0
+	for _, clo := range jr.AnonFuncs {
+		uses += len(callsStatic(clo, get, false))
+	}
+	r.Ob("choose-through-qualified-lookup", "nodeutil.JsonContainerReader/lookups-through-fqkGet", ctx.Pos(jr.Pos()), uses >= 3,
+		fmt.Sprintf("%d callbacks of the JSON reader use fqkGet (Choose, Child and Field are expected to)", uses))
+}
